@@ -76,6 +76,34 @@ def family(seed, n_scn, users_per):
         s.grade(h)
         s.tip(h)
         docs.append((s.s["name"], s.doc()))
+    # bank era: the PEG of a conversion into PEG is credited in a later pass; batches that draw on PEG around such a
+    # conversion (each draw affordable alone, together not). On the unchanged tree the implementation fails the whole block
+    # for the over-drawing shape (known legacy behaviour, no verdict here); the other shapes must be all-or-nothing.
+    for k in range(1 if n_scn <= 6 else 3):
+        L = scen.LEG
+        s = scen.Scn("c03-bank-%d" % k, sched=L, seed=seed * 100 + 50 + k, assets=["PEG", "pUSD", "pFCT", "pXBT"])
+        us = [s.key("B%d" % i) for i in range(1, 5)]
+        for h in range(1, 21):
+            s.grade(h, n=10 if h < L["GradingV2"] else 25, spr=False)
+            if h <= 2:
+                for u in us:
+                    s.burn(h, u, 400 * 10**8)
+            if h == L["TxConv"]:
+                for u in us:
+                    s.convert(h, u, "pFCT", 100 * 10**8, "pUSD", track=False)
+            if h == L["ConvLimit"]:
+                for u in us:
+                    s.convert(h, u, "pFCT", 10 * 10**8, "PEG", track=False)        # everybody gets some PEG (about 300)
+        h = L["ConvLimit"] + 3
+        peg = 10 * 10**8 * 150000000 // scen.RATES["PEG"]
+        # needs the deferred PEG in the first pass: refused (-1) without effect
+        s.entry(h, us[0], [{"t": "pUSD", "amt": 10**8, "conv": "PEG"}, {"t": "PEG", "amt": peg + 1, "conv": "pUSD"}])
+        # exactly affordable
+        s.entry(h, us[1], [{"t": "PEG", "amt": peg, "conv": "pUSD"}])
+        # each PEG draw affordable alone, together not, the last one relying on the deferred credit of the middle one
+        s.entry(h + 1, us[2], [{"t": "PEG", "amt": peg, "conv": "pUSD"}, {"t": "pUSD", "amt": 50 * 10**8, "conv": "PEG"}, {"t": "PEG", "amt": peg, "conv": "pUSD"}])
+        s.tip(21)
+        docs.append((s.s["name"], s.doc()))
     return docs
 
 
